@@ -28,7 +28,7 @@ import (
 // rotating sample of name_; C02 carries the look-alike families (ifinit, name_) and a rotating sample of
 // the others. pick(n) must return a seed-determined number in [0,n).
 func FamilyAtoms(prop string, quick bool, pick func(n int) int) (out []OutsideAtom) {
-	eff, str, nam, ty, ifi, bod := effectOnceAtoms(), stringLiteralAtoms(), namedLikeAtoms(), typeNestingAtoms(), ifInitAtoms(), bodyShapeAtoms()
+	eff, str, nam, ty, ifi, bod := effectOnceAtoms(), append(stringLiteralAtoms(), literalSpellingAtoms()...), namedLikeAtoms(), typeNestingAtoms(), ifInitAtoms(), bodyShapeAtoms()
 	rej := rejectedConstructFamilies()
 	if !quick {
 		all := append(append(append(append(append([]OutsideAtom{}, eff...), str...), nam...), ty...), bod...)
@@ -57,13 +57,13 @@ func FamilyAtoms(prop string, quick bool, pick func(n int) int) (out []OutsideAt
 		out = append(out, eff...)
 		out = append(out, ty...)
 		for _, a := range str {
-			if a.Kind == "stmt" && !strings.HasPrefix(a.ID, "strlit_raw_") {
+			if a.Kind == "stmt" && !strings.HasPrefix(a.ID, "strlit_raw_") && !strings.HasPrefix(a.ID, "lit_") {
 				out = append(out, a)
 			}
 		}
 		var rest []OutsideAtom
 		for _, a := range str {
-			if a.Kind != "stmt" || strings.HasPrefix(a.ID, "strlit_raw_") {
+			if a.Kind != "stmt" || strings.HasPrefix(a.ID, "strlit_raw_") || strings.HasPrefix(a.ID, "lit_") {
 				rest = append(rest, a)
 			}
 		}
@@ -458,6 +458,57 @@ func typeNestingAtoms() []OutsideAtom {
 		id := "ty_field_" + e.id
 		out = append(out, OutsideAtom{ID: id, Kind: "decl", Site: "composite type " + e.ty + " as struct field / slice-of field / map-of field",
 			Code: strings.ReplaceAll(strings.ReplaceAll("type H struct {\n\tf uint64\n\tg uint32\n}\n\ntype Bytes []byte\n\ntype MapU map[uint64]uint64\n\nfunc ptrNil(p *H) uint64 {\n\tif p == nil {\n\t\treturn 1\n\t}\n\treturn 0\n}\n\nfunc ptrNilU(p *uint64) uint64 {\n\tif p == nil {\n\t\treturn 1\n\t}\n\treturn 0\n}\n\nfunc fnNil(f func(uint64) uint64) uint64 {\n\tif f == nil {\n\t\treturn 1\n\t}\n\treturn 0\n}\n\nfunc boolU(b bool) uint64 {\n\tif b {\n\t\treturn 1\n\t}\n\treturn 0\n}\n\nfunc mapNil(mp map[uint64]uint64) uint64 {\n\tif mp == nil {\n\t\treturn 1\n\t}\n\treturn 0\n}\n\ntype ID_t struct {\n\tone TT\n\tmany []TT\n\tbykey map[uint64]TT\n\tn uint64\n}\n\nfunc ID_fn(a uint64) uint64 {\n\tt := &ID_t{n: a}\n\tt.many = make([]TT, 2)\n\tt.bykey = make(map[uint64]TT)\n\treturn t.n + uint64(len(t.many)) + uint64(len(t.bykey)) + "+strings.ReplaceAll(e.zero, "EE", "t.one")+" + "+strings.ReplaceAll(e.zero, "EE", "t.many[1]")+"\n}", "TT", e.ty), "ID", id)})
+	}
+	return out
+}
+
+// literalSpellingAtoms: the dimension "how a literal is spelled in the Go source" (the value is what
+// counts): integer bases, digit separators, extreme values, in each integer width and in the places a
+// literal can stand; escape spellings of string literals.
+func literalSpellingAtoms() []OutsideAtom {
+	var out []OutsideAtom
+	add := func(id, code string) {
+		out = append(out, OutsideAtom{ID: "lit_" + id, Kind: "stmt", Code: code, Site: "literal spelling " + id + ": the value of the literal is what the Go compiler reads"})
+	}
+	ints := []struct{ id, lit string }{
+		{"hex", "0xFF"}, {"hex_upper_x", "0XfF"}, {"hex_sep", "0x_FF_FF"}, {"octal_o", "0o17"}, {"octal_legacy", "017"}, {"octal_legacy_zeros", "0017"},
+		{"binary", "0b1011"}, {"binary_sep", "0b_1011_0000"}, {"dec_sep", "1_000"}, {"zero_variants", "0x0 + 0o0 + 0b0 + 00"},
+	}
+	for _, l := range ints {
+		add(l.id+"_u64", "x += "+l.lit)
+		add(l.id+"_u64_define", "t9 := uint64("+l.lit+")\n\tx += t9")
+		// narrow contexts take single literals only (constant EXPRESSIONS in a narrow context are the recorded
+		// finding untyped-constant-subexpression-in-narrow-context)
+		if !strings.Contains(l.lit, " ") {
+			if l.id != "hex_sep" && l.id != "dec_sep" {
+				add(l.id+"_u8", "z += "+l.lit+"\n\tx += uint64(z)")
+			}
+			add(l.id+"_u32", "w += "+l.lit+"\n\tx += uint64(w)")
+		}
+		add(l.id+"_index", "x += s[("+l.lit+")%4]")
+		add(l.id+"_compare", "if x%300 < "+l.lit+" {\n\t\tx += 1\n\t}")
+		add(l.id+"_shift", "x = x << (("+l.lit+") % 7)")
+	}
+	add("max_u64_dec", "x ^= 18446744073709551615")
+	add("max_u64_hex", "x ^= 0xFFFFFFFFFFFFFFFF")
+	add("max_u64_sep", "x ^= 0xFFFF_FFFF_FFFF_FFFF")
+	add("above_int64_dec", "x += 9223372036854775808")
+	add("above_int64_hex", "x += 0x8000000000000000")
+	add("max_u32_hex", "w ^= 0xFFFFFFFF\n\tx += uint64(w)")
+	add("max_u8_octal", "z ^= 0o377\n\tx += uint64(z)")
+	add("const_decl_hex", "const lc9 uint64 = 0x10\n\tx += lc9")
+	add("rune_literal", "x += uint64('a')")
+	add("rune_escape", "x += uint64('\\n') + uint64('\\x41')")
+	add("float_const_exact", "x += uint64(1e3)")
+	add("imaginary_free_const_expr", "x += 1<<3 | 0x3")
+	strs := []struct{ id, lit string }{
+		{"hex_escape", `"\x41B"`}, {"octal_escape", `"\101B"`}, {"u4_escape", `"\u0041\u00e9"`}, {"u8_escape", `"\U00000041\U0001F600"`},
+		{"bell_etc", `"\a\b\f\v"`}, {"escaped_backslash_t", `"\\t"`}, {"squote_escape_free", `"'"`}, {"mixed", `"a\tb\x00c"`},
+		{"raw_with_backslash_x", "`\\x41`"}, {"adjacent_escapes", `"\x5c\x6e"`},
+	}
+	for _, l := range strs {
+		lit := strings.ReplaceAll(l.lit, "\\", "\\")
+		add("str_"+l.id, "lit := "+lit+"\n\tbl := []byte(lit)\n\tx += uint64(len(lit)) * 1000\n\tfor _, bb := range bl {\n\t\tx = x*31 + uint64(bb)\n\t}")
 	}
 	return out
 }
